@@ -33,6 +33,9 @@ def plan(tier, seed):
     cases += rowlib.gen_cases(G.deletions(rng, 80 if q else 1200), 8, CFGS, "del")
     cases += rowlib.gen_cases(G.two_sided_oxygen(rng, 30 if q else 300), 6, CFGS, "both")
     cases += rowlib.gen_cases(G.ionic_balanced(rng, 20 if q else 200), 8, CFGS, "ionic")
+    cases += rowlib.gen_cases(G.h2_on_reactant_side(rng, 48 if q else 500), 8, CFGS, "h2")
+    cases += rowlib.gen_cases(G.dot_ring_closures(rng, 24 if q else 200), 8, CFGS, "dotring")
+    cases += rowlib.gen_cases(G.spectator_laden(rng, 24 if q else 200), 8, CFGS, "spect")
     if not q:
         from vgen import corpus
         cases += rowlib.gen_cases(corpus.raw_reactions(), 24, CFGS, "raw")
